@@ -28,7 +28,7 @@ func c05Populate(h *zz.H, c *cache.Cache, N int, twoTargets bool) []vLeafSpec {
 		}
 		k := h.Range("leaf_len", 1, h.Param("L", 2))
 		for j := 0; j < k; j++ {
-			l.idx = append(l.idx, h.Atom("leaf"))
+			l.idx = append(l.idx, vName(h, "leaf"))
 		}
 		for _, e := range l.idx {
 			h.Assume(e != "*" && e != "meta") // stored data: no wildcard names, not the metadata subtree
@@ -80,7 +80,7 @@ func c05Request(h *zz.H, mode pb.SubscriptionList_Mode, twoTargets bool) (*pb.Su
 		}
 		k := h.Range("sub_len", 0, h.Param("L", 2)+1)
 		for j := 0; j < k; j++ {
-			p.Elem = append(p.Elem, &pb.PathElem{Name: h.Atom("sub")})
+			p.Elem = append(p.Elem, &pb.PathElem{Name: vName(h, "sub")})
 		}
 		sl.Subscription = append(sl.Subscription, &pb.Subscription{Path: p})
 	}
